@@ -1,8 +1,10 @@
 #!/bin/sh
-# Offline setup: pre-compile the check packages' dependencies so that the first check is not slowed by a cold build cache.
+# Offline setup: compile the framework and warm the Go build cache (incl. the race-enabled
+# standard library) so that the first check does not pay for cold builds. Nothing is fetched.
 export GOFLAGS=-mod=mod GOPROXY=off GOSUMDB=off GOTOOLCHAIN=local
 cd "$(dirname "$0")" || exit 1
 go build ./... 2>&1 | tail -20
-go vet ./internal/... >/dev/null 2>&1
-go test -count=1 -run '^$' ./checks/... >/dev/null 2>&1
+go test -vet=off -count=1 -run '^$' ./checks/... ./internal/... >/dev/null 2>&1
+go test -vet=off -race -count=1 -run '^$' ./checks/c10/ ./internal/c01x/ >/dev/null 2>&1
+(cd /repo && go build ./... >/dev/null 2>&1; go build -o /dev/null ./cmd/ogen >/dev/null 2>&1)
 exit 0
